@@ -24,6 +24,15 @@ Beat(pid) == [kind |-> "HeartbeatTasks", a |-> [pid |-> pid]]
 CreateT(id, timeout, tags, pid, ttl) ==
   [kind |-> "CreatePromiseAndTask", a |-> [id |-> id, ikey |-> None, strict |-> FALSE, param |-> EmptyValue, timeout |-> timeout, tags |-> tags, pid |-> pid, ttl |-> ttl]]
 
+Acquire(rid, eid, pid, ttl) == [kind |-> "AcquireLock", a |-> [rid |-> rid, eid |-> eid, pid |-> pid, ttl |-> ttl]]
+Release(rid, eid) == [kind |-> "ReleaseLock", a |-> [rid |-> rid, eid |-> eid]]
+BeatLocks(pid) == [kind |-> "HeartbeatLocks", a |-> [pid |-> pid]]
+Schedule(id, cron, promiseId, ikey, ptags) ==
+  [kind |-> "CreateSchedule", a |-> [id |-> id, desc |-> "", cron |-> cron, tags |-> NoTags, promiseId |-> promiseId, promiseTimeout |-> 3,
+                                     promiseParam |-> EmptyValue, promiseTags |-> ptags, ikey |-> ikey]]
+ReadS(id) == [kind |-> "ReadSchedule", a |-> [id |-> id]]
+DeleteS(id) == [kind |-> "DeleteSchedule", a |-> [id |-> id]]
+
 RECURSIVE Build(_, _)
 \* (a setup step "Dispatch" is a dispatch cycle at instant 1 whose hand-off succeeds)
 SetupStep(S, r) == IF r.kind = "Dispatch" THEN Dispatch(S, r.a.task, "ok", Delay, 1) ELSE Op(r.kind, S, r.a, 1).db
@@ -91,6 +100,19 @@ Setup_overdue == Setup_collide
 DB_overdue == DB_collide
 Script_overdue == << Read("c"), CompleteP("c", RESOLVED, None, FALSE) >>
 Times_overdue == {2, 25}
+
+\* --- locks: two executions and two processes around the end of a lease, while the lock sweep runs
+Setup_locks == <<>>
+DB_locks == EmptyDB
+Script_locks == << Acquire("l", "e1", "w1", 2), Acquire("l", "e2", "w2", 2), Release("l", "e1"), BeatLocks("w1"), Acquire("l", "e1", "w2", 3) >>
+Times_locks == {2, 4}
+
+\* --- sched: a schedule (period 2; its promise id is fixed, so every occurrence but the first meets an existing
+\*     promise) is created again, deleted and read while it fires
+Setup_sched == << Schedule("s", 2, "sp", Some("k"), NoTags) >>
+DB_sched == Build(EmptyDB, Setup_sched)
+Script_sched == << Schedule("s", 2, "sp2", Some("k"), NoTags), Schedule("s", 2, "sp2", None, Routed1), DeleteS("s"), ReadS("s"), Create("sp", 9, None, FALSE, NoTags) >>
+Times_sched == {2, 4}
 
 \* --- create: creations of a routed promise (with and without a task) race with each other and with its completion
 Setup_create == <<>>
